@@ -23,6 +23,7 @@ RULE = (
 )
 ASSUMPTIONS = [
     "field ranges are taken from the class's own masks (contiguous runs); whether the masks are the standard's is C01's question",
+    "the opcode field ranges over the operation codes whose SAM group has the class's CDB length (a byte string of that length is a CDB only then)",
     "the static codec is used right after constructing an instance of the same class (C09 covers other histories)",
 ]
 
@@ -55,9 +56,21 @@ def field_bits(mask, off, total_len):
     return mask << (8 * (total_len - off - n))
 
 
-def make_strategy_a(cmd):
+def opcodes_of_length(n):
+    """opcode values whose SAM group prescribes an n-byte CDB (the class's own length): a byte
+    string of the class's length is only a CDB if its first byte belongs to that group."""
+    from pbt.stdspec import opcodes as T10
+
+    return [v for v in range(256) if T10.cdb_length(v) == n]
+
+
+def make_strategy_a(cmd, n=None):
     lay = layout_of(cmd)
-    return st.fixed_dictionaries({k: gen.fv(w) for k, (m, o, w) in lay.items()})
+    n = n or len(instantiate(cmd).cdb)
+    d = {k: gen.fv(w) for k, (m, o, w) in lay.items()}
+    if "opcode" in d:
+        d["opcode"] = st.sampled_from(opcodes_of_length(n))
+    return st.fixed_dictionaries(d)
 
 
 def check_a(cmd):
@@ -88,7 +101,9 @@ def make_strategy_b(cmd, n):
     union = 0
     for k, (m, o, w) in lay.items():
         union |= field_bits(m, o, n)
-    return st.integers(0, (1 << (8 * n)) - 1).map(lambda x: (x & union).to_bytes(n, "big"))
+    ops = opcodes_of_length(n)
+    return st.tuples(st.integers(0, (1 << (8 * n)) - 1), st.sampled_from(ops)).map(
+        lambda t: bytes([t[1]]) + (t[0] & union).to_bytes(n, "big")[1:])
 
 
 def check_b(cmd):
@@ -107,8 +122,10 @@ def check_b(cmd):
 def make_strategy_c(cmd):
     lay = layout_of(cmd)
     keys = sorted(lay)
+    n = len(instantiate(cmd).cdb)
     return st.tuples(make_strategy_a(cmd), st.sampled_from(keys)).flatmap(
-        lambda t: st.tuples(st.just(t[0]), st.just(t[1]), gen.fv(lay[t[1]][2])))
+        lambda t: st.tuples(st.just(t[0]), st.just(t[1]),
+                            st.sampled_from(opcodes_of_length(n)) if t[1] == "opcode" else gen.fv(lay[t[1]][2])))
 
 
 def check_c(cmd):
@@ -174,6 +191,10 @@ def neighbour_cases(cmd):
         vals.update(1 << i for i in range(w))
         for v in sorted(vals):
             d = {k: (1 << lay[k][2]) - 1 for k in lay}
+            if "opcode" in d:
+                d["opcode"] = cmd.opcode(cmd.tables()[0]).value
+            if key == "opcode":
+                continue
             yield (d, key, v)
 
 
